@@ -28,10 +28,10 @@ ASSUMPTIONS = [
     'the reference event list is an executable reading of the docstrings of pydoctor/visitor.py',
 ]
 FLOOR = {'quick': 5000, 'thorough': 50000}
-SPACE = {'quick': 'trees<=4 nodes (9 shapes) x 5^n actions x 20 timing sets x {walkabout, walk}; builder: alphabet x 6 placements, builder at rest AND the events seen by a recording extension of each timing obey stack discipline',
+SPACE = {'quick': 'trees<=4 nodes (9 shapes) x 6^n actions x 20 timing sets x {walkabout, walk}; builder: alphabet x 6 placements, builder at rest AND the events seen by a recording extension of each timing obey stack discipline',
          'thorough': 'trees<=5 nodes (23 shapes) x 5^n actions x 20 timing sets x {walkabout, walk}; builder: alphabet x 6 placements + all ordered pairs of the collision subset'}
 
-ACTS = [None, 'SkipChildren', 'SkipSiblings', 'SkipNode', 'SkipDeparture']
+ACTS = [None, 'SkipChildren', 'SkipSiblings', 'SkipNode', 'SkipDeparture', 'depart:SkipSiblings']      # the last one is raised from the main visitor's depart method
 TIMINGS = ['BEFORE', 'AFTER', 'INNER', 'OUTTER']
 
 
@@ -116,7 +116,7 @@ def reference(root: N, tags: Sequence[Tuple[str, str]], departures: bool) -> Lis
                     break
         if departures:
             leave(n, a not in ('SkipNode', 'SkipDeparture'))
-        return a == 'SkipSiblings'
+        return a == 'SkipSiblings' or (a == 'depart:SkipSiblings' and departures)
     walk(root)
     return ev
 
@@ -132,11 +132,13 @@ def execute(tree: tuple, acts: Sequence[Optional[str]], ts: Sequence[str], metho
     class Main(visitor.Visitor):  # type: ignore
         def unknown_visit(s, ob: N) -> None:
             log.append(('main', '+', ob.name))
-            if ob.act:
+            if ob.act and not ob.act.startswith('depart:'):
                 raise getattr(s, ob.act)()
 
         def unknown_departure(s, ob: N) -> None:
             log.append(('main', '-', ob.name))
+            if ob.act and ob.act.startswith('depart:'):
+                raise getattr(s, ob.act.split(':')[1])()
 
         @classmethod
         def get_children(cls, ob: N) -> List[N]:
@@ -292,11 +294,13 @@ def judge_history(tree: tuple, acts: Sequence[Optional[str]], stages: Sequence[T
     class Main(visitor.Visitor):  # type: ignore
         def unknown_visit(s, ob: N) -> None:
             log.append(('main', '+', ob.name))
-            if ob.act:
+            if ob.act and not ob.act.startswith('depart:'):
                 raise getattr(s, ob.act)()
 
         def unknown_departure(s, ob: N) -> None:
             log.append(('main', '-', ob.name))
+            if ob.act and ob.act.startswith('depart:'):
+                raise getattr(s, ob.act.split(':')[1])()
 
         @classmethod
         def get_children(cls, ob: N) -> List[N]:
@@ -353,8 +357,16 @@ def builder_case(src: str) -> Optional[str]:
             super().__init__(system)
             captured.append(self)
 
+    gave_up: List[str] = []
+
     class Sys(model.System):  # type: ignore
         defaultBuilder = B
+
+        def msg(self, section: str, msg: str, *a: Any, **k: Any) -> None:
+            if 'too many nested constructs' in msg:
+                gave_up.append(msg)
+            k['thresh'] = 100          # silent
+            super().msg(section, msg, *a[1:], **k) if a else super().msg(section, msg, **k)
 
     s = pd.new_system(systemcls=Sys)
     # one recording extension per timing on the REAL module visitor: what an extension that keeps its own stack of nodes would see
@@ -381,6 +393,8 @@ def builder_case(src: str) -> Optional[str]:
         b.buildModules()
     except RecursionError:
         return None   # not this property's business (C01)
+    if gave_up:
+        return None   # the walk was abandoned (tree too deep, reported): an abandoned walk is not a pruned walk (C01's business)
     for bb in captured:
         if bb._stack != [] or bb.current is not None or bb.currentMod is not None:
             return f'stack={[type(o).__name__ for o in bb._stack]} current={bb.current!r} currentMod={bb.currentMod!r}'
